@@ -160,7 +160,8 @@ def check_history(case):
         else:
             quiet_parse(P, h)
         # fixed facts (no reference parser involved): cells of columns F-H are answered from their coordinates
-        for p, w in (('F6', 505), ('H8', 707), ('G7+0', 606), ('SUM(F6:H8)', 5 + 5 + 7 + 7), ('SUM(H8:F6)', 24)):
+        # ... and a formula whose callbacks run a failing and then a succeeding evaluation on this same parser before the formula goes on
+        for p, w in (('F6', 505), ('H8', 707), ('G7+0', 606), ('SUM(F6:H8)', 5 + 5 + 7 + 7), ('SUM(H8:F6)', 24), ('INNERFAIL(1)&"/"&(LEN(INNEROK(1)&"..")*0)&"/"&F6&LEN("abc")', '#ERROR!/0/5053')):
             g = quiet_parse(P, p)
             if g['error'] is not None or g['result'] != w:
                 raise Violation('after the history %r the parser evaluates %r to %r; its listener answers from the coordinates of the reference, which give %r' % (case['history'][:step + 1], p, g, w), g['error'] or enc(g['result']), w)
